@@ -34,7 +34,9 @@ ASSUMPTIONS = gc.ASSUMPTIONS_COMMON + [
 COMPONENTS = gc.COMPONENTS
 DELTA = 1e-4
 
-SWEEP_UNITS = ["{0}CC{1}", "{0}CC({1})c1ccccc1", "{0}CCO{1}", "{0}C(N)C{1}", "{0}[Si](C)(C)O{1}", "{0}CC(C)({1})C(=O)OC", "{0}C{1}"]
+SWEEP_UNITS = ["{0}CC{1}", "{0}CC({1})c1ccccc1", "{0}CCO{1}", "{0}C(N)C{1}", "{0}[Si](C)(C)O{1}", "{0}CC(C)({1})C(=O)OC", "{0}C{1}",
+               # isotope-labelled units: the mass that counts is the mass of the atoms as written (13C 13.003, 18O 17.999)
+               "{0}[13CH2][13CH2]{1}", "{0}C[18O]C{1}", "{0}[13CH2]C({1})Cl", "{0}CC({1})C([2H])([2H])[2H]", "{0}CS{1}"]
 
 
 def plan(tier):
